@@ -39,6 +39,7 @@ func init() {
 		rig.Part{Name: "commute-race", Race: true, Cases: cases(48, 600), Run: c02Commute, Procs: 4},
 	)
 	ck.Rule += " Part commute: 3-4 goroutines apply 6-10 partial updates each for disjoint identifiers of one function at the same time (local API, remote-feature API, write datagrams of a bound peer); " +
+		"a fifth of the API and datagram updates are confined to an owned identifier by a selector (partial+selector) and a fifth delete an owned identifier (delete+selector); for the remote store one goroutine is the peer itself sending notify and reply datagrams; " +
 		"the final list must equal the per-identifier overlay of each owner's updates in program order (non-trivial: every goroutine completed at least 3 updates and at least two call intervals overlapped)."
 	ck.Assumptions = append(ck.Assumptions, "part commute: updates of different identifiers commute, so the expected final list does not depend on the schedule; only list types whose keys are all numeric are used there")
 }
@@ -63,8 +64,8 @@ func c02Commute(c *rig.Ctx) {
 	workers := 3 + r.Intn(2)
 	const perWorker = 2 // identifiers owned by one goroutine
 	type step struct {
-		id   int
-		item reflect.Value
+		id int
+		u  rig.Update
 	}
 	plans := make([][]step, workers)
 	// start from a list that already holds every identifier (remote writes cannot add identifiers)
@@ -83,14 +84,7 @@ func c02Commute(c *rig.Ctx) {
 			return
 		}
 	}
-	for w := range plans {
-		n := 6 + r.Intn(5)
-		for s := 0; s < n; s++ {
-			id := w*perWorker + r.Intn(perWorker)
-			plans[w] = append(plans[w], step{id, li.NewItem(r, id)})
-		}
-	}
-	// per worker: path (the writer peer can only be one goroutine: it is one connection)
+	// per worker: path (the peer can only be one goroutine: it is one connection)
 	paths := make([]string, workers)
 	for w := range paths {
 		paths[w] = "api"
@@ -100,7 +94,29 @@ func c02Commute(c *rig.Ctx) {
 		// accepted there is C04's subject
 		paths[0] = "write"
 	}
-
+	if store == "remote" {
+		// the peer itself reports changes of its data: reply and notify datagrams to the local client feature
+		paths[0] = "datagram"
+	}
+	for w := range plans {
+		n := 6 + r.Intn(5)
+		for s := 0; s < n; s++ {
+			id := w*perWorker + r.Intn(perWorker)
+			u := rig.Update{Kind: "partial", SelKey: -1, DelSel: -1, Items: []reflect.Value{li.NewItem(r, id)}}
+			// updates confined to an OWNED identifier by a selector commute with the other owners' updates as well; a
+			// remote write may not name an identifier the list does not hold, so the writer never deletes
+			if paths[w] != "write" && li.SelCoversKeys {
+				switch r.Intn(5) {
+				case 0:
+					u = rig.Update{Kind: "partial-sel", SelKey: id, DelSel: -1, Items: []reflect.Value{li.NewItem(r, -1)}}
+				case 1:
+					u = rig.Update{Kind: "delete-sel", SelKey: -1, DelSel: id}
+				}
+			}
+			plans[w] = append(plans[w], step{id, u})
+			c.Count("commute:"+paths[w]+":"+u.Kind, 1)
+		}
+	}
 	type span struct{ call, ret int64 }
 	spans := make([][]span, workers)
 	errs := make([]string, workers)
@@ -112,7 +128,8 @@ func c02Commute(c *rig.Ctx) {
 			defer wg.Done()
 			<-startc
 			for _, st := range plans[w] {
-				u := rig.Update{Kind: "partial", SelKey: -1, DelSel: -1, Items: []reflect.Value{st.item}}
+				u := st.u
+				fp, fd, _ := li.Filters(u)
 				sp := span{call: rig.Seq()}
 				switch {
 				case paths[w] == "write":
@@ -123,12 +140,25 @@ func c02Commute(c *rig.Ctx) {
 					}
 					lw.p.Raw(b)
 					_ = mc
+				case paths[w] == "datagram":
+					cl := model.CmdClassifierTypeNotify
+					if len(spans[w])%2 == 1 {
+						cl = model.CmdClassifierTypeReply
+					}
+					b, _, _, e := lw.wire(u, cl, lw.remoteAddr, lw.localCli.Address(), false)
+					if e != nil {
+						errs[w] = e.Error()
+						return
+					}
+					if rec := lw.p.Raw(b); rec != "" {
+						errs[w] = "panic: " + rec
+					}
 				case store == "local":
-					if e := lw.local.UpdateData(li.Fn, li.MkList(rig.CloneItems(u.Items)), model.NewFilterTypePartial(), nil); e != nil {
+					if e := lw.local.UpdateData(li.Fn, li.MkList(rig.CloneItems(u.Items)), fp, fd); e != nil {
 						errs[w] = e.String()
 					}
 				default:
-					if _, e := lw.remote.UpdateData(true, li.Fn, li.MkList(rig.CloneItems(u.Items)), model.NewFilterTypePartial(), nil); e != nil {
+					if _, e := lw.remote.UpdateData(true, li.Fn, li.MkList(rig.CloneItems(u.Items)), fp, fd); e != nil {
 						errs[w] = e.String()
 					}
 				}
@@ -147,14 +177,14 @@ func c02Commute(c *rig.Ctx) {
 	}
 	for w, e := range errs {
 		if e != "" {
-			c.Violate("commute/update-failed", "%s (%s store): a partial update of goroutine %d for its own identifiers failed: %s", li.Fn, store, w, e)
+			c.Violate("commute/update-failed", "%s (%s store): an update of goroutine %d for its own identifiers failed: %s", li.Fn, store, w, e)
 		}
 	}
 	// expectation: overlay of every owner's updates in program order
 	want := rig.CloneItems(start)
 	for w := range plans {
 		for _, st := range plans[w] {
-			want = li.RefApply(want, rig.Update{Kind: "partial", SelKey: -1, DelSel: -1, Items: []reflect.Value{st.item}})
+			want = li.RefApply(want, st.u)
 		}
 	}
 	var got []reflect.Value
@@ -188,7 +218,7 @@ func c02Commute(c *rig.Ctx) {
 		var hist []string
 		for w := range plans {
 			for _, st := range plans[w] {
-				hist = append(hist, fmt.Sprintf("g%d(%s) id=%d %s", w, paths[w], st.id, rig.Canon(st.item)))
+				hist = append(hist, fmt.Sprintf("g%d(%s) id=%d %s", w, paths[w], st.id, st.u))
 			}
 		}
 		c.Violate("commute/final-differs-from-fold", "%s (%s store): %d goroutines applied partial updates for disjoint identifiers at the same time (%d overlapping call pairs); the final list is not the fold\n got:  %s\n want: %s\n updates (program order per goroutine):\n   %s",
